@@ -31,8 +31,10 @@ impl Val for Rev {
 }
 /// Universe selector for Type-valued elements: false = structurally unrelated bodies, true = "near misses"
 /// (one rich enum definition; each value differs from value 0 in exactly one leaf part).
-static NEAR: std::sync::atomic::AtomicBool = std::sync::atomic::AtomicBool::new(false);
-fn set_near(b: bool) { NEAR.store(b, std::sync::atomic::Ordering::SeqCst) }
+static UNIVERSE: std::sync::atomic::AtomicUsize = std::sync::atomic::AtomicUsize::new(0);
+/// 0: one body per definition kind; 1: near misses; 2: the kinds shifted, so that small alphabets reach the rest
+fn set_universe(u: usize) { UNIVERSE.store(u, std::sync::atomic::Ordering::SeqCst) }
+fn set_near(b: bool) { set_universe(b as usize) }
 
 /// One leaf of a rich definition changed per value: any equality/ordering that ignores a part of
 /// Type<PortableForm> conflates two of these.
@@ -85,17 +87,27 @@ fn near_of(n: &str) -> Type<PortableForm> {
     Type::new(path, tp, scale_info::TypeDefVariant::new(if swap { vec![vb, va] } else { vec![va, vb] }), tdocs)
 }
 fn body_of(n: &str) -> Type<PortableForm> {
-    if NEAR.load(std::sync::atomic::Ordering::SeqCst) {
+    use scale_info::{TypeDefArray, TypeDefBitSequence, TypeDefCompact, TypeDefVariant, Variant};
+    let u = UNIVERSE.load(std::sync::atomic::Ordering::SeqCst);
+    if u == 1 {
         return near_of(n);
     }
     let k = idx(n);
-    match k % 4 {
-        0 => Type::new(Default::default(), vec![], TypeDefPrimitive::U8, vec![format!("{n}")]),
-        1 => Type::new(Default::default(), vec![], TypeDefSequence::<PortableForm>::new(k.into()), vec![format!("{n}")]),
-        2 => Type::new(Default::default(), vec![], TypeDefTuple::<PortableForm>::new_portable(vec![k.into(), 0.into()]), vec![format!("{n}")]),
-        _ => Type::builder_portable()
+    let kind = if u == 2 { (k + 4) % 8 } else { k % 8 };
+    let docs = vec![format!("{n}")];
+    // every definition kind, the multi-reference ones with DIFFERENT ids in their positions
+    match kind {
+        0 => Type::new(Default::default(), vec![], TypeDefPrimitive::U8, docs),
+        1 => Type::new(Default::default(), vec![], TypeDefSequence::<PortableForm>::new(k.into()), docs),
+        2 => Type::new(Default::default(), vec![], TypeDefTuple::<PortableForm>::new_portable(vec![k.into(), 0.into()]), docs),
+        3 => Type::builder_portable()
             .path(scale_info::Path::from_segments_unchecked(vec![n.to_string()]))
             .composite(scale_info::build::Fields::named().field_portable(|f| f.name("x".into()).ty(k))),
+        4 => Type::new(Default::default(), vec![], TypeDefArray::<PortableForm>::new(k + 1, k.into()), docs),
+        5 => Type::new(Default::default(), vec![], TypeDefCompact::<PortableForm>::new(k.into()), docs),
+        6 => Type::new(Default::default(), vec![], TypeDefBitSequence::<PortableForm>::new_portable(k.into(), (k + 1).into()), docs),
+        _ => Type::new(scale_info::Path::from_segments_unchecked(vec![n.to_string()]), vec![],
+                       TypeDefVariant::<PortableForm>::new(vec![Variant::new("V".to_string(), vec![], (k % 256) as u8, vec![])]), docs),
     }
 }
 #[derive(PartialEq, Eq, PartialOrd, Ord, Clone)]
@@ -240,7 +252,7 @@ fn record(seed: u64, walks: usize, len: usize, path: &str) {
     let names: Vec<String> = (0..96).map(|i| format!("v{i}")).collect();
     for w in 0..walks {
         let kind = ["string", "rev", "body", "builder", "body", "builder"][w % 6];
-        set_near(w % 6 >= 4); // Type-valued walks alternate between unrelated bodies and near misses
+        set_universe(if w % 6 >= 4 { 1 } else { 0 }); // Type-valued walks alternate between one body per kind and near misses
         out.put(&json!({"ev": "reset", "kind": kind}));
         let don_s = donor::<String>();
         let don_r = donor::<Rev>();
@@ -348,12 +360,12 @@ fn main() {
             for (i, t) in ts.iter().enumerate() {
                 replay_interner::<String>("string", i, t, &mut out, &mut bad, &mut n);
                 replay_interner::<Rev>("rev", i, t, &mut out, &mut bad, &mut n);
-                for near in [false, true] {
-                    set_near(near);
-                    replay_interner::<Body>(if near { "body/near" } else { "body" }, i, t, &mut out, &mut bad, &mut n);
+                for u in [0usize, 1, 2] {
+                    set_universe(u);
+                    replay_interner::<Body>(["body", "body/near", "body/kinds"][u], i, t, &mut out, &mut bad, &mut n);
                     replay_builder(i, t, &mut out, &mut bad, &mut n);
                 }
-                set_near(false);
+                set_universe(0);
             }
             out.flush();
             println!("{}", json!({"executed": n, "mismatches": bad}));
